@@ -346,6 +346,9 @@ def handle (st : DState) (line : String) : DState × String :=
     | some a => let (txt, sz) := dasm st.cpu.arch a; (st, "A " ++ toString sz.toNat ++ " " ++ txt)
     | none => bad
   | "SW" :: rest => (st, cmdSweep rest)
+  | ["SF", n8] => match parseHex n8 with
+    | some n => let c := st.cpu.setFreqEighths (UInt32.ofNat n); ({ st with cpu := c }, "V " ++ toString c.slice.max.toNat)
+    | none => bad
   | ["SD", d] => match parseHex d with
     | some d => ({ st with cpu := st.cpu.setSliceDuration (UInt32.ofNat d) }, "ok") | none => bad
   | _ => bad
